@@ -10,10 +10,6 @@ use std::sync::atomic::{AtomicI64 as StdAtomicI64, AtomicU64 as StdAtomicU64, Or
 use crate::verif_sync::{AtomicI64 as StdAtomicI64, AtomicU64 as StdAtomicU64};
 #[cfg(prometheus_verif)]
 use std::sync::atomic::Ordering;
-// Whatever else this file may come to use from std::sync::atomic resolves under the verification cfg too.
-#[cfg(prometheus_verif)]
-#[allow(unused_imports)]
-use std::sync::atomic::*;
 
 /// An interface for numbers. Used to generically model float metrics and integer metrics, i.e.
 /// [`Counter`](crate::Counter) and [`IntCounter`](crate::Counter).
@@ -285,3 +281,9 @@ mod test {
         assert_eq!(au64.get(), 123);
     }
 }
+
+// Under the verification cfg, whatever else this file may come to use from std::sync::atomic resolves too
+// (kept at the end of the file, away from the ordinary imports).
+#[cfg(prometheus_verif)]
+#[allow(unused_imports)]
+use std::sync::atomic::*;
